@@ -327,7 +327,7 @@ func c03Run(raw json.RawMessage, c *mc.Ctx) {
 		}
 		w := buildBatchWorld(root, 60)
 		args := []string{root, fmt.Sprint(sp.Conc)}
-		for _, n := range []string{"A", "B", "C", "A2", "A", "C", "B", "A2"} {
+		for _, n := range []string{"A", "B", "C", "A2", "Ag", "As", "Ca", "Cw", "Cu", "Ao", "Bo", "Ap", "A", "C", "B", "Cw2"} {
 			args = append(args, w.Lines[n]+" resultfolder="+filepath.Join(root, "out", "r"))
 		}
 		cmd := exec.Command(bin, args...)
